@@ -126,6 +126,10 @@ func (p *Prog) loadContractFile(path, pkg string) error {
 				return fmt.Errorf("%s: ghost %s: %v", path, x.List[1].Atom, err)
 			}
 			p.GhostDecls[x.List[1].Atom] = srt
+			if len(x.List) > 3 && x.List[3].Atom == "monotone" {
+				// a counter that every contract only increases: calls into unknown code leave it at least as large
+				p.GhostMono[x.List[1].Atom] = true
+			}
 		case "lemma":
 			p.Lemmas = append(p.Lemmas, &LemmaDecl{X: x, Pkg: pkg, File: path})
 		default:
